@@ -254,6 +254,11 @@ def run_perms(case):
                         break  # read side only (a declaration has no write path of its own)
                     before = cur(t)
                     new = t['token'] + bytes([order.randrange(1, 250)]) * 3 + (b'q' if op == 'write_request' else b'c')
+                    if wwhy and before and order.random() < 0.3:
+                        # a guess that happens to be right: writing the value the attribute already holds is refused like any other
+                        # write (an acknowledgement would confirm the guess)
+                        new = before
+                        sim.probe('refused_write_carrying_the_stored_value')
                     rsp = ask(b, struct.pack('<BH', opcode, h) + new, expect_response=(opcode == 0x12))
                     after = cur(t)
                     if wwhy:
